@@ -3,6 +3,7 @@
 # like try_seed.sh but without touching /repo or /verif/evidence: the change is applied to a scratch
 # worktree of /repo HEAD and the check runs against that (VERIF_REPO / VERIF_OUT, development only)
 p="$1"; id="$2"; tier="${3:-quick}"
+export GOFLAGS=-mod=mod GOPROXY=off
 W=/tmp/seedtry/$id.$$
 mkdir -p /tmp/seedtry
 git -C /repo worktree add -q --detach $W HEAD || exit 2
